@@ -149,7 +149,8 @@ fn signed_ranges(ser: Ser, token: &str) -> Vec<(usize, usize)> {
 pub fn binding(_cex: &Value) -> Result<String, String> {
   let k = key("keyA", None);
   let other = key("keyB", None);
-  let payloads: [&[u8]; 3] = [b"{\"iss\":\"joe\"}", b"hello world", b"a"];
+  // (the last one is not UTF-8: legal as a detached unencoded payload, where the signing input carries it as it is)
+  let payloads: [&[u8]; 4] = [b"{\"iss\":\"joe\"}", b"hello world", b"a", &[0xff, 0xfe, 0x80, 0x41, 0xc3]];
   let r = no_panic(move || -> Vec<String> {
     let mut log = Vec::new();
     for ser in [Ser::Compact, Ser::Flattened, Ser::General] {
@@ -222,10 +223,15 @@ pub fn binding(_cex: &Value) -> Result<String, String> {
                   }
                 }
                 if detached {
-                  let mut m = enc_payload.clone();
-                  m[0] ^= 1;
-                  if decode_verify(ser, token.as_bytes(), Some(&m), &k).is_ok() {
-                    log.push(format!("{tag}: verifies with a modified detached payload"));
+                  'dflip: for i in 0..enc_payload.len() {
+                    for bit in 0..8 {
+                      let mut m = enc_payload.clone();
+                      m[i] ^= 1 << bit;
+                      if decode_verify(ser, token.as_bytes(), Some(&m), &k).is_ok() {
+                        log.push(format!("{tag}: verifies with a modified detached payload (bit {bit} of byte {i})"));
+                        break 'dflip;
+                      }
+                    }
                   }
                   if decode_verify(ser, token.as_bytes(), None, &k).is_ok() {
                     log.push(format!("{tag}: detached token verifies without any payload"));
@@ -636,6 +642,59 @@ pub fn policy(_cex: &Value) -> Result<String, String> {
         let got = FlattenedJwsEncoder::new(b"payload", Recipient::new().protected(&ph).unprotected(&uh), false).is_ok();
         if got != (i != j) {
           log.push(format!("protected {n1} + unprotected {n2}: {}", if got { "accepted" } else { "rejected" }));
+        }
+      }
+    }
+    // every name in crit has to be an understood extension - one understood name does not vouch for the rest - and an unprotected
+    // header never carries crit, whatever other (registered or custom) parameters sit next to it
+    {
+      for (list, extra_present) in [(vec!["b64", "x-policy"], true), (vec!["x-policy", "b64"], true), (vec!["b64", "exp"], true), (vec!["b64", "x-policy"], false), (vec!["b64", "b64", "x-policy"], true)] {
+        let mut h = JwsHeader::new();
+        h.set_alg(JwsAlgorithm::EdDSA);
+        h.set_b64(false);
+        h.set_crit(list.iter().copied());
+        if extra_present {
+          let mut m = std::collections::BTreeMap::new();
+          m.insert(list.iter().find(|n| **n != "b64").unwrap().to_string(), serde_json::json!(1));
+          h.set_custom(m);
+        }
+        let tag = format!("crit {list:?} (the other extension present in the header: {extra_present})");
+        if CompactJwsEncoder::new_with_options(b"payload", &h, CompactJwsEncodingOptions::Detached).is_ok() {
+          log.push(format!("compact encoder accepts {tag}"));
+        }
+        let rec = Recipient::new().protected(&h);
+        if FlattenedJwsEncoder::new(b"payload", rec, true).is_ok() || GeneralJwsEncoder::new(b"payload", rec, true).is_ok() {
+          log.push(format!("json encoder accepts {tag}"));
+        }
+        let pj = identity_jose::jwu::encode_b64(serde_json::to_vec(&h).unwrap());
+        let sig = identity_jose::jwu::encode_b64(toy_sign(&k, format!("{pj}.payload").as_bytes()));
+        if Decoder::new().decode_compact_serialization(format!("{pj}..{sig}").as_bytes(), Some(b"payload")).is_ok() {
+          log.push(format!("decoder accepts {tag}"));
+        }
+      }
+      for (what, with_custom, with_kid) in [("alone", false, false), ("next to a custom parameter", true, false), ("next to kid", false, true), ("next to kid and a custom parameter", true, true)] {
+        let ph = build(H { alg: true, b64: None, crit: None, kid: false });
+        let mut uh = JwsHeader::new();
+        uh.set_crit(["exp"]);
+        if with_custom {
+          let mut m = std::collections::BTreeMap::new();
+          m.insert("exp".to_owned(), serde_json::json!(1));
+          m.insert("x-trace".to_owned(), serde_json::json!("abc"));
+          uh.set_custom(m);
+        }
+        if with_kid {
+          uh.set_kid("k");
+        }
+        let rec = Recipient::new().protected(&ph).unprotected(&uh);
+        if FlattenedJwsEncoder::new(b"payload", rec, false).is_ok() || GeneralJwsEncoder::new(b"payload", rec, false).is_ok() {
+          log.push(format!("encoder accepts crit in the unprotected header ({what})"));
+        }
+        let pj = identity_jose::jwu::encode_b64(serde_json::to_vec(&ph).unwrap());
+        let payload = identity_jose::jwu::encode_b64(b"payload");
+        let sig = identity_jose::jwu::encode_b64(toy_sign(&k, format!("{pj}.{payload}").as_bytes()));
+        let text = serde_json::json!({"payload": payload, "protected": pj, "header": serde_json::to_value(&uh).unwrap(), "signature": sig}).to_string();
+        if Decoder::new().decode_flattened_serialization(text.as_bytes(), None).is_ok() {
+          log.push(format!("decoder accepts crit in the unprotected header ({what})"));
         }
       }
     }
